@@ -393,9 +393,15 @@ func (b *Broker) RegisterPipeline(def Pipeline, opt ...Option) error {
 		registrationPolicy: opts.withPipelineRegistrationPolicy,
 	}
 
+	// If an existing pipeline is being overwritten, release the references it
+	// holds on its nodes before it is replaced.
+	b.releaseNodes(g, def.PipelineID)
+
 	// Store the pipeline and then update the reference count of the nodes in that pipeline.
+	// Each distinct node is counted once per pipeline, which is what removeNode
+	// expects when the pipeline's (flattened) nodes are removed.
 	g.roots.Store(def.PipelineID, pipelineReg)
-	for _, id := range def.NodeIDs {
+	for id := range root.flatten() {
 		nodeUsage, ok := b.nodes[id]
 		// We can be optimistic about this as we would have already errored above.
 		if ok {
@@ -423,8 +429,24 @@ func (b *Broker) RemovePipeline(t EventType, id PipelineID) error {
 		return fmt.Errorf("no graph for EventType %s", t)
 	}
 
+	b.releaseNodes(g, id)
 	g.roots.Delete(id)
 	return nil
+}
+
+// releaseNodes decrements the reference count of every node referenced by the
+// specified pipeline (if it is registered), without closing or removing nodes.
+// This function assumes that the caller holds a lock
+func (b *Broker) releaseNodes(g *graph, id PipelineID) {
+	nodes, err := g.roots.Nodes(id)
+	if err != nil {
+		return
+	}
+	for _, nodeID := range nodes {
+		if nodeUsage, ok := b.nodes[nodeID]; ok && nodeUsage.referenceCount > 0 {
+			nodeUsage.referenceCount--
+		}
+	}
 }
 
 // RemovePipelineAndNodes will attempt to remove all nodes referenced by the pipeline.
